@@ -1,8 +1,8 @@
 SPECIFICATION MCSpec
 CONSTANTS
-  Tree <- Tree7
+  Tree <- Tree5
   Root = "b0"
-  InitReady = {TRUE, FALSE}
+  InitReady = {FALSE}
   PCaps = {2}
   ACaps = {2}
   MaxBacklog = 1
